@@ -194,6 +194,8 @@ def obligations(tier):
              clause="the bindings collected for a record update / constructor application become nested lets in binding order: the first binding is the outermost let, so the parts are evaluated left to right as the strict semantics says (loop invariant against the specification nest_lets)"),
         dict(engine="verus", unit="binder", function="Translator::translate_::record_base_needs_binding", name="C01/core/record_base_needs_binding", source="vm/src/core/mod.rs::Translator::translate_ (ast::Expr::Record arm, the closure computing needs_bindings)",
              clause="record update: the base is used in place only if it is a plain identifier; any other base expression is bound first so that fields and base are evaluated in source order"),
+        dict(engine="verus", unit="binder", function="PatternTranslator::compile_constructor::complete", name="C01/core/compile_constructor_complete", source="vm/src/core/mod.rs::PatternTranslator::compile_constructor (the block computing `complete`)",
+             clause="the default (fall-through) alternative of a compiled constructor match is left out only if every constructor of the closed variant type has its own group of equations"),
         dict(engine="verus", unit="binder", function="Binder::into_expr_ref", name="C01/core/Binder_into_expr_ref", source="vm/src/core/mod.rs::Binder::into_expr_ref",
              clause="same for the by-reference variant"),
         dict(engine="verus", unit="binder", function="PatternTranslator::translate::no_variables", name="C01/core/match_first_equation_wins", source="vm/src/core/mod.rs::PatternTranslator::translate (arm: no scrutinee variables left)",
